@@ -41,6 +41,8 @@ type c40Case struct {
 	Workers   [][]c40Op      `json:"workers"`
 	Rounds    int            `json:"rounds"`
 	Trickle   bool           `json:"trickle,omitempty"`
+	Pollers   int            `json:"pollers,omitempty"` // extra goroutines that call GetStats and the getters in a tight loop
+	PreDC     int            `json:"pre_dc,omitempty"`  // data channels created before signaling starts (they are opened when SCTP comes up)
 	SchedSeed uint64         `json:"sched_seed,omitempty"`
 	Strat     simrt.Strategy `json:"strat"`
 	NetSeed   uint64         `json:"net_seed"`
@@ -52,6 +54,9 @@ var c40Kinds = []string{"addtrack", "addtrack", "removetrack", "addtransceiverki
 func c40Gen(seed uint64, idx, total int, tier string) any {
 	r := vfNewRand(seed, "c40")
 	c := &c40Case{Rounds: r.Range(1, 3), Trickle: r.Bool(0.3), SchedSeed: r.U64(), Strat: vfGenStrategy(r), NetSeed: r.U64()}
+	if r.Bool(0.4) {
+		c.Pollers, c.PreDC = r.Range(1, 3), vfPick(r, []int{0, 4, 16, 40})
+	}
 	nw := r.Range(2, 6)
 	closer := -1
 	if r.Bool(0.5) {
@@ -295,6 +300,41 @@ func c40RunRace(t *testing.T, cj []byte, res *vfResult) {
 		res.Verdict, res.Detail = "error", err.Error()
 		return
 	}
+	for i := 0; i < c.PreDC && i < 64; i++ {
+		_, _ = a.pc.CreateDataChannel(fmt.Sprintf("pre%d", i), nil)
+	}
+	pollStop := make(chan struct{})
+	var pollWG sync.WaitGroup
+	for i := 0; i < c.Pollers && i < 4; i++ {
+		pollWG.Add(1)
+		go func() {
+			defer pollWG.Done()
+			for n := 0; n < 3000; n++ {
+				select {
+				case <-pollStop:
+					return
+				default:
+				}
+				_ = a.pc.GetStats()
+				_ = a.pc.ConnectionState()
+				if s := a.pc.SCTP(); s != nil {
+					_ = s.State()
+				}
+				if n%16 == 15 {
+					time.Sleep(200 * time.Microsecond)
+				}
+			}
+		}()
+	}
+	defer func() {
+		close(pollStop)
+		done := make(chan struct{})
+		go func() { pollWG.Wait(); close(done) }()
+		select {
+		case <-done:
+		case <-time.After(3 * time.Second): // (a poller stuck in a deadlocked call is reported by the watchdog below, not waited for)
+		}
+	}()
 	logs := make([][]string, len(c.Workers)+1)
 	curs := make([]atomic.Int32, len(c.Workers)+1)
 	var wg sync.WaitGroup
@@ -315,7 +355,7 @@ func c40RunRace(t *testing.T, cj []byte, res *vfResult) {
 	go func() { wg.Wait(); close(done) }()
 	select {
 	case <-done:
-	case <-time.After(45 * time.Second):
+	case <-time.After(25 * time.Second):
 		var pend []string
 		for wi := range c.Workers {
 			if i := curs[wi].Load(); i >= 0 && int(i) < len(c.Workers[wi]) {
@@ -327,7 +367,7 @@ func c40RunRace(t *testing.T, cj []byte, res *vfResult) {
 		}
 		buf := make([]byte, 1<<20)
 		n := runtime.Stack(buf, true)
-		res.violate("call-did-not-return", fmt.Sprintf("after 45 s (real time, nothing is waiting for the network): %s\n%s", strings.Join(pend, "; "), c40Trim(string(buf[:n]))))
+		res.violate("call-did-not-return", fmt.Sprintf("after 25 s (real time, nothing is waiting for the network): %s\n%s", strings.Join(pend, "; "), c40Trim(string(buf[:n]))))
 		return
 	}
 	for _, l := range logs {
@@ -349,7 +389,7 @@ func c40RunRace(t *testing.T, cj []byte, res *vfResult) {
 	go func() { _ = a.pc.GracefulClose(); _ = b.pc.GracefulClose(); close(cd) }()
 	select {
 	case <-cd:
-	case <-time.After(45 * time.Second):
+	case <-time.After(25 * time.Second):
 		buf := make([]byte, 1<<20)
 		n := runtime.Stack(buf, true)
 		res.violate("call-did-not-return:final-gracefulclose", c40Trim(string(buf[:n])))
@@ -491,7 +531,7 @@ func init() {
 		Real: []string{"both PeerConnections with real ICE, DTLS, SCTP, SRTP", "vnet", "Go race detector"},
 		Stub: []string{"network: vnet in-process, no faults", "signaling: in-process"},
 		Assumptions: []string{"the interleaving is the Go runtime's (perturbed), not chosen by the seed: the race detector's happens-before analysis does not need the racing accesses to collide in time, and a schedule the shim controlled would add synchronisation that hides races",
-			"a run that does not finish within 45 s of real time although nothing waits for the network is reported as calls that do not return"},
+			"a run that does not finish within 25 s of real time although nothing waits for the network is reported as calls that do not return"},
 	})
 	vfRegister(&vfProp{
 		ID: "C40D", Level: "exploration", ReplayClass: "decision-exact",
